@@ -213,6 +213,14 @@ impl Acc {
     }
     pub fn fail(&mut self, sub: &str, case: Value, message: String) {
         if self.failure.is_none() {
+            // the case file holds the complete input; keep the one-line message readable
+            let message = if message.len() > 3000 {
+                let head: String = message.chars().take(1500).collect();
+                let tail: String = message.chars().rev().take(700).collect::<Vec<_>>().into_iter().rev().collect();
+                format!("{head} ...[{} characters omitted]... {tail}", message.chars().count() - 2200)
+            } else {
+                message
+            };
             self.failure = Some(Failure {
                 sub: sub.to_owned(),
                 case,
